@@ -190,3 +190,76 @@ PROPS["C17"] = {
     "technique": "Lean 4 proof (invariants of the BFS with visited set against inductive reachability; certified saturation "
                  "oracle) + refutation witnesses + exhaustive-per-table differential correspondence on generated class graphs",
 }
+
+# To be merged into /verif/tools/qvconfig.py (shape of PROPS["C12"]).
+PROPS["C18"] = {
+    "gen": [],
+    "lean": ["QV.Props.C18"],
+    "streams": ["c18"],
+    "rule": "each layout is a generated directory tree (root + 1-5 directories, 0-6 .qml files each; root types among Qt "
+            "widget classes, QObject, components of any directory, unknown names; string imports '.', '..', '../sib', "
+            "relative paths to existing directories, non-existent directories, 'missing/../x', file names, trailing '/' "
+            "and '.'; planted mutually importing directories, mutually inheriting components (within and across "
+            "directories) and self-inheriting components; files without root object; unknown named modules) materialised "
+            "under std::env::temp_dir() and removed afterwards; for EVERY permutation of the 1-5 sources (all 24 when <= 4 "
+            "sources, 8 sampled otherwise) one TypeMap is filled by the real qmldir::populate_directories and every source "
+            "is translated by uigen::build; compared with the Lean model (kind=model): the set of directory modules, the "
+            "component table with each component's resolved super class or TypeMapError text, and per source "
+            "accepted/built, sorted diagnostic messages, widget classes with the bindings that reached the .ui, and the "
+            "<customwidgets> entries (class, extends, header) read by the harness's own XML reader; kind=spec: directory "
+            "set = saturation under string imports (QV.Spec.QmlDir); kind=oracle (evaluated on the real outputs): "
+            "c18-perms (identical answers for all permutations), c18-cli6 (the real qmluic BINARY built from /repo's working "
+            "tree by env::cli_binary(): same exit status and same set + content of written .ui files for up to 6 orders of "
+            "the source arguments), c18-exact (each custom class once, header = lower-cased "
+            "<class>.h, extends = root type written in a visible <class>.qml, every non-Qt type used by an accepted "
+            "document is listed), c18-reach (directory set = reachability computed on the real file system); "
+            "kind=model c18-cliout (two orders per layout): exit status and written .ui files of the real binary = the Lean "
+            "model of the generate_ui loop (cliRun) over the per-source outcomes; "
+            "distinct = distinct requests; the Qt side of the model (derives-from-QWidget, accepted property names of 8 Qt "
+            "classes) is measured on the real type map when the stream starts",
+    "exhaustive_note": "permutations of the source list are exhaustive for layouts with <= 4 sources",
+    "trusted_base": [
+        "hand-written model of qmldir.rs (work-list, make_doc_component_data, path resolution), typemap lookups "
+        "(ImportedModuleSpace reverse search, name_map last-wins, one-super base walk with visited set), "
+        "make_doc_module_space, objtree type resolution, property/class diagnostics and UiForm custom widgets; tied by "
+        "the c18 stream",
+        "the generator's QML pretty-printer (imports, one root object, flat children, one constant binding each)",
+        "Qt classes are summarised as (name, derives QWidget, accepted property names) measured by Class::get_property / "
+        "is_derived_from on the real type map; the class graph inside Qt is property C17's subject",
+    ],
+    "assumptions": [
+        "read_dir order is outside the model: results are proved independent of it only through the reachability "
+        "characterisation (two files with the same stem, e.g. A.qml and A.QML, would make the component table depend on "
+        "it — not generated)",
+        "case-insensitive file systems and symbolic links are outside the model (paths are canonical component lists; "
+        "the temp root is canonicalised before prefixes are stripped)",
+        "I/O errors other than a missing directory are outside the model; sources are existing files",
+        "type names used are not names of the Builtins module (int, bool, QString, ...), imports carry no alias/version, "
+        "no import escapes the root of the tree (the driver answers (skip ...) otherwise; the generator never produces it)",
+        "command line: CommandError::Other (I/O failure while reading/writing a source's files) still ends generate_ui at "
+        "once; such errors are outside the model's file system, so cli_outputs_order_independent carries the hypothesis "
+        "noFatal (no source hits an I/O-level error)",
+    ],
+    "level_text": "proof: discovery_terminates (work-list total, explicit fuel bound, measure pending + (pushBound+1)*#unvisited "
+                  "strictly decreases; fuel irrelevance), inheritance_walk_terminates / translation_terminates (base-class "
+                  "walk ends on A:B,B:A and A:A), discovered_iff_reachable (directory in the type map iff Reach from a source "
+                  "directory through string imports of files with a root object, path resolution proved equal to the "
+                  "relational Resolves), discovered_module + component_class (class with one super = root type, own import "
+                  "list), discovery_order_independent and outputs_independent_of_argument_order (List.Perm of the sources: "
+                  "same map, same translation of every document), customwidgets_exact (no class twice; listed iff "
+                  "instantiated and the component's own root type resolves; extends = that class, header = lower-cased "
+                  "name.h; accepted documents list every instantiated component), instances_accept_base_properties "
+                  "(property/widget-ness of the base class carries over through any chain of components), and for the "
+                  "command-line loop cli_outputs_order_independent (written outputs are a permutation of each other and the "
+                  "exit status is equal for every permutation of the arguments), cli_written_iff_accepted, cli_status. The "
+                  "clause that was refuted before (F15) is now proved; the pre-repair loop is kept as cliRunFailFast with the "
+                  "kernel-checked witness f15_fail_fast_witness / f15_fail_fast_order_dependent.",
+    "level_note": "trusted: Lean kernel; the hand-written model tied by the c18 stream (quick: 500 layouts ≈ 7 400 cases incl. "
+                  "≈ 1 000 model comparisons and ≈ 500 order oracles on the real binary, 0 disagreements); Qt class summaries "
+                  "measured on the real type map; read_dir order, symlinks, case-insensitive file systems and I/O errors are "
+                  "outside the model; F15 (generate-ui stopped at the first rejected source) repaired in /repo 73d3cab, "
+                  "regression witness corpus/C18/cli_fail_fast.c18.req",
+    "technique": "Lean 4 proof (work-list invariant + well-founded measure; reachability characterisation; simulation-free "
+                 "order independence by characterisation) + differential correspondence on materialised directory layouts "
+                 "for all source permutations + oracles on the real outputs",
+}
